@@ -211,7 +211,7 @@ def _enumerate(world, K, thorough):
                                      label=f'{K}:n={n},names={nm},ctor={ctor},cargs={cargs},{tag}')
     elif K == 'List':
         mins = [None, 0, '0', 1, '1', 2, '2', 'n']
-        maxs = [None, 0, '0', 1, '3', 'm']
+        maxs = [None, 0, '0', 1, '3', 'm', 'n']          # 'n' with min 'n': an exact data-dependent count
         for mi in mins:
             for ma in maxs:
                 for ch, tag in _kids(world, ['e']):
